@@ -58,9 +58,14 @@ def pair_case(draw, max_dims=3):
             base = a["labels"][a["dims"].index(d)]
             kind = core.label_kind(base)
             rel, labs = draw(gen.related_labels(base, kind))
-            if kind == "i" and draw(st.integers(0, 4)) == 0:
+            mix = draw(st.integers(0, 7)) if kind == "i" else 9
+            if mix == 0:
                 labs = [float(x) for x in labs]           # int-vs-float pair
                 rels[d] = (rel, "int-vs-float")
+            elif mix == 1 and labs:
+                frac = draw(st.sampled_from([0.5, 0.1]))  # int-vs-float pair with labels between the integers
+                labs = [x + frac if draw(st.booleans()) else float(x) for x in labs]
+                rels[d] = (rel, "int-vs-fractional-float")
             else:
                 rels[d] = (rel, kind)
             blabels.append(labs)
